@@ -186,6 +186,13 @@ def make_pool():
   def _():
     return fdl.Config(fb, 1, y=2)
 
+  @add('explicit-none-over-defaults')
+  def _():
+    # None set explicitly where the default is something else: positional-only, positional-or-
+    # keyword, *args, keyword-only, **kwargs, and in a nested node
+    return fdl.Config(fnone, None, None, None, None, 5, k=None, extra=None,
+                      sub=fdl.Partial(fb, None, y=None))
+
   @add('positional+varargs+kwargs')
   def _():
     return fdl.Config(fa, 1, 2, 3, 4, 5, k='k', extra=7)
@@ -331,6 +338,16 @@ def edits():
           pass
   return [('setattr', set_first), ('delattr', del_first), ('tags', tag_all), ('index', index_edit),
           ('clear_tags', clear_tags), ('set_tags', set_tags)]
+
+
+def fkord(x=0, **kw):
+  """Observes the order in which its keyword arguments arrive."""
+  return ('fkord', x, tuple(kw.items()))
+
+
+def fnone(a=1, b='two', /, c=3.0, *rest, k=(4,), **kw):
+  """Every parameter has a default that is not None."""
+  return ('fnone', a, b, c, rest, k, tuple(sorted(kw.items())))
 
 
 def fb2(x=0, y=1, z=2):
